@@ -121,7 +121,9 @@ struct PolPlainSingle { typedef eventpp::SingleThreading Threading; };
 struct PolMulti { };
 struct PolOrderedAsc { typedef eventpp::SingleThreading Threading; template <typename T> using QueueList = eventpp::OrderedQueueList<T>; };
 struct PolOrderedDescMulti { template <typename T> using QueueList = eventpp::OrderedQueueList<T, CmpDesc>; };
-struct PolOrderedField { typedef eventpp::SingleThreading Threading; template <typename T> using QueueList = eventpp::OrderedQueueList<T, CmpField>; };
+// the alias carries the comparator as a second, defaulted parameter (the shape of OrderedQueueList itself): the library only ever uses
+// QueueList<Item>, and must find the policy whatever the alias's full parameter list looks like (built as C++11)
+struct PolOrderedField { typedef eventpp::SingleThreading Threading; template <typename T, typename C = CmpField> using QueueList = eventpp::OrderedQueueList<T, C>; };
 struct PolSim { typedef sim::SimThreading Threading; };
 
 // ordering: 0 FIFO, 1 key ascending, 2 key descending, 3 (id % 3) ascending
@@ -1043,6 +1045,7 @@ struct Gen
 			const int o = pickObj();
 			const uint32_t r = rng.below(100);
 			if(r < 70) ops.push_back(queueOp(o, 0));
+			else if(!pool && r >= 95 && (mode == "c05" || mode == "c13")) ops.push_back(Op(r < 98 ? O_DQN_OPEN : O_DQN_CLOSE, 0, 0, 0, dOf(o, 0)));   // processing must work under a live DisableQueueNotify
 			else if(r < 86 || !pool) ops.push_back(listenerOp(o, 0, false));
 			else {
 				const uint32_t q = rng.below(100);
